@@ -141,7 +141,7 @@ run_deflate(struct scn *s)
         memset(&fd, 0, sizeof(fd));
         fd.mem = s->mem;
         if (s->mem == MEM_CONTIG) {
-                fd.all_r = vh_region_new(s->inlen + 1);
+                fd.all_r = vh_region_get(s->inlen + 1);
                 fd.all = vh_place(&fd.all_r, s->inlen, VH_END, 0);
                 memcpy(fd.all, s->in, s->inlen);
         } else if (s->mem == MEM_RECYCLE) {
@@ -151,8 +151,8 @@ run_deflate(struct scn *s)
                                 mx = s->calls[i].ai;
                 if (mx > (size_t) s->inlen)
                         mx = s->inlen;
-                fd.ring[0] = vh_region_new(mx + 1);
-                fd.ring[1] = vh_region_new(mx + 1);
+                fd.ring[0] = vh_region_get(mx + 1);
+                fd.ring[1] = vh_region_get(mx + 1);
         }
         for (i = 0; i < s->ncalls; i++)
                 if ((size_t) s->calls[i].ao > maxao)
@@ -160,11 +160,11 @@ run_deflate(struct scn *s)
         if ((size_t) s->tail_ao > maxao)
                 maxao = s->tail_ao;
         /* the context sits flush against a LEADING inaccessible page (reads before the struct fault) */
-        zr = vh_region_new(sizeof(*z) + 64);
+        zr = vh_region_get(sizeof(*z) + 64);
         z = (struct isal_zstream *) vh_place(&zr, sizeof(*z), VH_START, 0);
         prefill(z, sizeof(*z), s->prefill);
-        lr = vh_region_new(lsz + 64);
-        outr = vh_region_new(maxao + 64);
+        lr = vh_region_get(lsz + 64);
+        outr = vh_region_get(maxao + 64);
         if (s->api == API_DEFLATE)
                 isal_deflate_init(z);
         else
@@ -189,7 +189,7 @@ run_deflate(struct scn *s)
                 isal_deflate_set_hufftables(z, NULL, IGZIP_HUFFTABLE_STATIC);
         else if (s->table == 2 || s->table == 3) {
                 struct isal_huff_histogram *h = calloc(1, sizeof(*h));
-                hr = vh_region_new(sizeof(*ht));
+                hr = vh_region_get(sizeof(*ht));
                 ht = (struct isal_hufftables *) vh_place(&hr, sizeof(*ht), VH_END, 0);
                 isal_update_histogram(s->in, s->inlen, h);
                 if (s->table == 2)
@@ -205,7 +205,7 @@ run_deflate(struct scn *s)
                 fprintf(out, "{\"e\":\"SetDict\",\"scn\":%d,\"ret\":%d}\n", s->id, r);
         } else if (s->dictmode == 2 && s->api == API_DEFLATE) {
                 int r1, r2;
-                dr = vh_region_new(sizeof(struct isal_dict));
+                dr = vh_region_get(sizeof(struct isal_dict));
                 dstruct = (struct isal_dict *) vh_place(&dr, sizeof(struct isal_dict), VH_END, 0);
                 prefill(dstruct, sizeof(*dstruct), s->prefill);
                 r1 = isal_deflate_process_dict(z, dstruct, s->dict, s->dictlen);
@@ -240,8 +240,8 @@ run_deflate(struct scn *s)
                 z->end_of_stream = eos_set;
                 z->flush = c.flush;
                 last_flush = c.flush;
-                vh_fill(&outr, VH_CANARY);
                 o = vh_place(&outr, c.ao, VH_END, 0);
+                vh_window_fill(&outr, o, VH_CANARY);
                 z->next_out = o;
                 z->avail_out = c.ao;
                 ai0 = z->avail_in;
@@ -264,7 +264,7 @@ run_deflate(struct scn *s)
                 }
                 {
                         uint32_t cns = ai0 - z->avail_in, prd = c.ao - z->avail_out;
-                        long canary = vh_outside_intact(&outr, o, c.ao, VH_CANARY); /* writes inside [0, avail_out) are the callee's right */
+                        long canary = vh_window_intact(&outr, o, VH_CANARY) ? 0x7fffffff : -1; /* writes inside [0, avail_out) are the callee's right; the end is a guard page */
                         /* everything outside the avail_out bytes offered must be untouched (the end is flush against a guard page) */
                         fprintf(out,
                                 "{\"e\":\"Call\",\"scn\":%d,\"seq\":%d,\"flush\":%d,\"eos\":%d,\"ai\":%u,\"ao\":%d,\"ret\":%d,\"c\":%u,\"p\":%u,"
@@ -300,18 +300,18 @@ run_deflate(struct scn *s)
         if (fd.have_cur)
                 vh_region_free(&fd.cur_r);
         if (s->mem == MEM_CONTIG)
-                vh_region_free(&fd.all_r);
+                vh_region_put(&fd.all_r);
         if (s->mem == MEM_RECYCLE) {
-                vh_region_free(&fd.ring[0]);
-                vh_region_free(&fd.ring[1]);
+                vh_region_put(&fd.ring[0]);
+                vh_region_put(&fd.ring[1]);
         }
         if (ht)
-                vh_region_free(&hr);
+                vh_region_put(&hr);
         if (dstruct)
-                vh_region_free(&dr);
-        vh_region_free(&zr);
-        vh_region_free(&lr);
-        vh_region_free(&outr);
+                vh_region_put(&dr);
+        vh_region_put(&zr);
+        vh_region_put(&lr);
+        vh_region_put(&outr);
 }
 
 static void
@@ -329,7 +329,7 @@ run_inflate(struct scn *s)
         memset(&fd, 0, sizeof(fd));
         fd.mem = s->mem;
         if (s->mem == MEM_CONTIG) {
-                fd.all_r = vh_region_new(s->inlen + 1);
+                fd.all_r = vh_region_get(s->inlen + 1);
                 fd.all = vh_place(&fd.all_r, s->inlen, VH_END, 0);
                 memcpy(fd.all, s->in, s->inlen);
         } else if (s->mem == MEM_RECYCLE) {
@@ -339,18 +339,18 @@ run_inflate(struct scn *s)
                                 mx = s->calls[i].ai;
                 if (mx > (size_t) s->inlen)
                         mx = s->inlen;
-                fd.ring[0] = vh_region_new(mx + 1);
-                fd.ring[1] = vh_region_new(mx + 1);
+                fd.ring[0] = vh_region_get(mx + 1);
+                fd.ring[1] = vh_region_get(mx + 1);
         }
         for (i = 0; i < s->ncalls; i++)
                 if ((size_t) s->calls[i].ao > maxao)
                         maxao = s->calls[i].ao;
         if ((size_t) s->tail_ao > maxao)
                 maxao = s->tail_ao;
-        sr = vh_region_new(sizeof(*st) + 64);
+        sr = vh_region_get(sizeof(*st) + 64);
         st = (struct inflate_state *) vh_place(&sr, sizeof(*st), VH_START, 0);
         prefill(st, sizeof(*st), s->prefill);
-        outr = vh_region_new(maxao + 64);
+        outr = vh_region_get(maxao + 64);
         isal_inflate_init(st);
         st->next_in = NULL;
         st->avail_in = 0;
@@ -382,8 +382,8 @@ run_inflate(struct scn *s)
                         st->avail_in = chunk_n;
                         fed += chunk_n;
                 }
-                vh_fill(&outr, VH_CANARY);
                 o = vh_place(&outr, c.ao, VH_END, 0);
+                vh_window_fill(&outr, o, VH_CANARY);
                 st->next_out = o;
                 st->avail_out = c.ao;
                 ai0 = st->avail_in;
@@ -403,7 +403,7 @@ run_inflate(struct scn *s)
                 }
                 {
                         uint32_t cns = ai0 - st->avail_in, prd = c.ao - st->avail_out;
-                        long canary = vh_outside_intact(&outr, o, c.ao, VH_CANARY); /* writes inside [0, avail_out) are the callee's right */
+                        long canary = vh_window_intact(&outr, o, VH_CANARY) ? 0x7fffffff : -1; /* writes inside [0, avail_out) are the callee's right; the end is a guard page */
                         fprintf(out,
                                 "{\"e\":\"Call\",\"scn\":%d,\"seq\":%d,\"ai\":%u,\"ao\":%d,\"ret\":%d,\"c\":%u,\"p\":%u,\"to\":%u,\"dto\":%u,"
                                 "\"bs\":\"%s\",\"ril\":%d,\"ain\":%u,\"fed\":%zu,\"crc_lo\":%u,\"crc_hi\":%u,\"touched_outside\":%d",
@@ -447,13 +447,13 @@ run_inflate(struct scn *s)
         if (fd.have_cur)
                 vh_region_free(&fd.cur_r);
         if (s->mem == MEM_CONTIG)
-                vh_region_free(&fd.all_r);
+                vh_region_put(&fd.all_r);
         if (s->mem == MEM_RECYCLE) {
-                vh_region_free(&fd.ring[0]);
-                vh_region_free(&fd.ring[1]);
+                vh_region_put(&fd.ring[0]);
+                vh_region_put(&fd.ring[1]);
         }
-        vh_region_free(&sr);
-        vh_region_free(&outr);
+        vh_region_put(&sr);
+        vh_region_put(&outr);
 }
 
 int
